@@ -255,4 +255,27 @@ CHECKS = {
         jobs=[dict(test="TestC17", quick=T(6, 8, 60), thorough=T(12, 150, 80, 3000)),
               dict(test="TestC17Halt", quick=T(2, 2), thorough=T(4, 30, 0, 3000))],
     ),
+    "C20": dict(
+        level="exploration",
+        level_text="Generated, constructively consistent genesis configurations (accounts, extra tokens, pillars, delegations, "
+                   "fusions, swap entries, sporks, optional nil SporkConfig). Determinism: same configuration => same genesis "
+                   "hash, momentum bytes and logical store dump across repeated construction, permutations of every unordered "
+                   "list, a JSON round trip, and (for a share of cases) construction in a fresh child process. Validation: "
+                   "CheckGenesis accepts every constructed configuration and rejects 12 kinds of single-entry perturbation; for "
+                   "every ACCEPTED configuration (incl. duplicate-key variants) the built state satisfies the supply identity "
+                   "and contract holdings equal registered collateral / fused amounts. Database mismatch: chain.Init on a "
+                   "database created with config A using config B fails iff the genesis hashes differ and leaves the whole "
+                   "leveldb key space unchanged.",
+        level_note="Lists whose entries collide on a storage key are order-carrying: generated, never permuted. SporkAddress is not "
+                   "part of the genesis hash (measured, not asserted). Null amounts make CheckGenesis panic (observation recorded "
+                   "in DESIGN.md, outside the statement).",
+        technique="metamorphic (permutation / re-encoding / fresh process) and perturbation-based property testing (rapid)",
+        rule="non-trivial = configuration with >=3 tokens, >=4 genesis blocks, >=2 fusions that was permuted, perturbed, turned into "
+             "a variant, or paired with a different config object",
+        assumptions=["strings are valid UTF-8 (as decoded from a JSON file); amounts non-negative and < 2^112",
+                     "an activated spork this binary does not implement gets enforcement height >= 100000 (otherwise chain.Init exits)"],
+        jobs=[dict(test="TestC20Determinism", pkg="p20", quick=T(3, 60), thorough=T(6, 600, 0, 3000)),
+              dict(test="TestC20Validation", pkg="p20", quick=T(3, 200), thorough=T(5, 2000, 0, 3000)),
+              dict(test="TestC20DatabaseMismatch", pkg="p20", quick=T(2, 100), thorough=T(5, 1000, 0, 3000))],
+    ),
 }
